@@ -5,7 +5,7 @@
    Vocabulary: spec/CacheSpec.v ([Declared], [Inv], [Coh], [sublist]).
    The rejection script [rej] lists the (write-access) indices of device writes that fail
    transiently, histories add more with OpReject; accesses outside the image fail always. *)
-From Cam Require Import Outcome Bytes Mem BitField RegCodec Cache CacheSpec P_C01 P_C04.
+From Cam Require Import Outcome Bytes Mem BitField RegCodec Cache CacheSpec P_C01 P_C04 CacheClient P_C04c.
 
 (* the invariant holds initially, every operation preserves it (also operations the device
    rejects), and it implies that every cache entry equals device memory at its key *)
@@ -89,6 +89,58 @@ Print Assumptions C04_hypotheses_satisfiable.
 Theorem C04_declared_static : forall y, declared_static y = true -> Declared y.
 Proof. exact declared_static_sound. Qed.
 Print Assumptions C04_declared_static.
+
+(* ADAPTIVE CLIENTS (model/CacheClient.v).  A history is a fixed operation list; a [client] chooses every next
+   operation from what the previous ones printed - any evaluator of a feature graph over the register layer
+   (pValue chains, pIndex tables, selectors, swiss knives, converters: property C03), any polling loop.  For every
+   such client tree, every declared system, image, variable values and rejection script: the cached and the
+   uncached run print the same trace, give the same answer and leave the same device memory ... *)
+Theorem C04_client_transparent : forall y, Declared y -> forall base image vars rej (c : client),
+  cl_trace (client_run true cur y base image vars rej c) = cl_trace (client_run false cur y base image vars rej c) /\
+  cl_answer (client_run true cur y base image vars rej c) = cl_answer (client_run false cur y base image vars rej c) /\
+  cl_mem (client_run true cur y base image vars rej c) = cl_mem (client_run false cur y base image vars rej c).
+Proof. exact client_transparent. Qed.
+Print Assumptions C04_client_transparent.
+
+(* ... take the same branch at every step (perform the same operations) ... *)
+Theorem C04_client_same_branches : forall y, Declared y -> forall base image vars rej (c : client),
+  history_of true cur y c (init base image vars rej) = history_of false cur y c (init base image vars rej).
+Proof. exact client_same_branches. Qed.
+Print Assumptions C04_client_same_branches.
+
+(* ... and the cached run accesses the device at most where the uncached one does, with identical writes *)
+Theorem C04_client_no_extra_access : forall y, Declared y -> forall base image vars rej (c : client),
+  sublist (cl_log (client_run true cur y base image vars rej c)) (cl_log (client_run false cur y base image vars rej c)) /\
+  writes_of (cl_log (client_run true cur y base image vars rej c)) =
+  writes_of (cl_log (client_run false cur y base image vars rej c)).
+Proof. exact client_no_extra_access. Qed.
+Print Assumptions C04_client_no_extra_access.
+
+(* a client run is exactly the run of the history it performs (so the correspondence check, which replays
+   histories on the code cached and uncached, covers adaptive evaluators), and a history is a client *)
+Theorem C04_client_is_history : forall on v y (c : client) s,
+  cl_trace (run_client on v y c s) = fst (run_ops on v y (history_of on v y c s) s) /\
+  snd (run_client on v y c s) = snd (run_ops on v y (history_of on v y c s) s).
+Proof. exact client_is_history. Qed.
+Print Assumptions C04_client_is_history.
+
+Theorem C04_history_is_client : forall on v y h s,
+  cl_trace (run_client on v y (client_of_history h) s) = fst (run_ops on v y h s) /\
+  snd (run_client on v y (client_of_history h) s) = snd (run_ops on v y h s).
+Proof. exact history_is_client. Qed.
+Print Assumptions C04_history_is_client.
+
+(* non-vacuity: a client whose selector write depends on what it read *)
+Theorem C04_client_example :
+  Declared ex_bank /\
+  let xc := client_run true cur ex_bank 256 wit_image [0] [] ex_client in
+  let xu := client_run false cur ex_bank 256 wit_image [0] [] ex_client in
+  cl_answer xc = cl_answer xu /\ cl_answer xc <> [] /\
+  history_of true cur ex_bank ex_client (init 256 wit_image [0] []) =
+    [OpValue 2; OpSet 0 [1]; OpValue 1; OpValue 1] /\
+  (length (cl_log xc) < length (cl_log xu))%nat.
+Proof. exact client_example. Qed.
+Print Assumptions C04_client_example.
 
 (* The code before the "fix:" commits violates the property. *)
 
